@@ -508,6 +508,8 @@ func main() {
 		})
 		runBatches(items, out)
 		out.Close()
+	case "bigvalue":
+		bigValue(kit.Atoi(os.Args[2]), os.Args[3])
 	case "bigarr":
 		// bigarr <events>: arrays of 300 / 40 000 / 70 000 elements (a cbor array of small integers): the last path component of every
 		// element is its position, also far beyond 2^15 and 2^16, and the way back through parent leads to the same element
